@@ -404,19 +404,62 @@ func genC14Plan(r *zsim.Rng) *sysPlan {
 		for i := r.Intn(8); i > 0; i-- {
 			seq = append(seq, sysEvent{Kind: "keys", Keys: pick(r, "bspace", "bspace", "ctrl-w", "left", "home", "alt-bspace", "del"), DelayMs: r.Intn(5)})
 		}
+		// half of the time with plain geometry, where the prompt row is known: the last row, the first under
+		// --layout reverse
+		promptRow := 0
+		c14DropArg(p, "--no-mouse")
+		if r.Bool() {
+			for _, o := range []string{"--border", "--padding", "--height", "--margin", "--layout", "--input-border", "--header-border", "--list-border"} {
+				c14DropOpt(p, o)
+			}
+			promptRow = p.Rows
+			if r.Bool() {
+				p.Args = append(p.Args, "--layout", "reverse")
+				promptRow = 1
+			}
+		}
+		if promptRow > 0 && r.Bool() {
+			// the plain case: a query that does not fit (its end is at the right edge), one to three characters
+			// deleted at the end (the query buffer is now exactly as long as the query), a click right of
+			// where the text ends
+			long = long[:0]
+			for i := p.Cols + r.Range(3, 40); i > 0; i-- {
+				long = append(long, "abcdef "[r.Intn(7)])
+			}
+			seq = append(seq[:0], sysEvent{Kind: "raw", Raw: append([]byte{}, long...)})
+			if r.Bool() {
+				seq = append(seq, sysEvent{Kind: "settle"})
+			}
+			for i := r.Range(1, 4); i > 0; i-- {
+				seq = append(seq, sysEvent{Kind: "keys", Keys: "bspace", DelayMs: r.Intn(3)})
+			}
+			if r.Bool() {
+				seq = append(seq, sysEvent{Kind: "settle"})
+			}
+			x := maxInt(1, p.Cols-r.Intn(3))
+			seq = append(seq, sysEvent{Kind: "raw", Raw: []byte(fmt.Sprintf("\x1b[<0;%d;%dM\x1b[<0;%d;%dm", x, promptRow, x, promptRow)), DelayMs: r.Intn(4)})
+		}
 		for i := r.Range(1, 5); i > 0; i-- {
-			x := r.Range(1, p.Cols+1)
+			// anywhere, and often in the last columns: right of where a scrolled query ends
+			x := []int{p.Cols, p.Cols - 1, p.Cols - 2, p.Cols - 3, r.Range(1, p.Cols+1), r.Range(1, p.Cols+1)}[r.Intn(6)]
+			if x < 1 {
+				x = 1
+			}
 			y := []int{1, 2, 3, p.Rows, p.Rows - 1, p.Rows - 2, r.Range(1, p.Rows+1)}[r.Intn(7)]
 			if y < 1 {
 				y = 1
+			}
+			if promptRow > 0 && r.Chance(2, 3) {
+				y = promptRow
 			}
 			b := []byte(fmt.Sprintf("\x1b[<0;%d;%dM\x1b[<0;%d;%dm", x, y, x, y))
 			if r.Chance(1, 3) {
 				b = append(b, b...) // double click
 			}
-			seq = append(seq, sysEvent{Kind: "raw", Raw: b, DelayMs: r.Intn(30)})
-			if r.Chance(1, 3) {
-				seq = append(seq, sysEvent{Kind: "keys", Keys: pick(r, "bspace", "a", "ctrl-u", "end")})
+			// often right behind the key before it: the prompt has not been redrawn for the shorter query yet
+			seq = append(seq, sysEvent{Kind: "raw", Raw: b, DelayMs: []int{0, 0, 0, 1, r.Intn(30)}[r.Intn(5)]})
+			if r.Chance(1, 2) {
+				seq = append(seq, sysEvent{Kind: "keys", Keys: pick(r, "bspace", "bspace", "a", "ctrl-u", "end", "ctrl-w")})
 			}
 		}
 		// … and drags that start on the scrollbar column of a list longer than the window and end anywhere,
